@@ -7,7 +7,7 @@ from harness import table_scorers as ts
 from harness.engine import coq_bad_cases, coq_eval, coq_list, nlist, pairs_nat, zlit
 
 INFO = {
-    "extra_targets": ["Check/SbsCheck.vo", "Check/GenericCheck.vo"],
+    "extra_targets": ["Check/SbsCheck.vo", "Check/GenericCheck.vo", "Check/FloatRunCheck.vo"],
     "level": "proof",
     "rule": "integer change scores (pseudo-random formula columns and integer CUSUM numerators of data with level shifts, p = 1..3) "
             "driven through the real SeededBinarySegmentation with an integer threshold_; configuration drawn from "
